@@ -26,6 +26,50 @@ def in_scope(code):
     return code.co_filename.endswith(FILES)
 
 
+# file-system primitives: a call of one of these is a crash point wherever it is issued from
+# (e.g. inside shutil / tempfile / pathlib helpers that the settings code calls), so that a
+# library helper that performs several system calls is bracketed step by step as well
+FS_NAMES = {"open", "replace", "rename", "remove", "unlink", "mkdir", "makedirs", "truncate", "write",
+            "writelines", "close", "fsync", "copyfile", "copyfileobj", "copy", "copy2", "move", "symlink",
+            "link", "rmdir", "sendfile", "copy_file_range", "mkstemp", "fdopen", "__exit__"}
+FS_MODULES = {"io", "_io", "posix", "os", "shutil", "builtins", "tempfile", "pathlib"}
+
+
+FILE_METHODS = {"write", "writelines", "close", "truncate", "__exit__"}
+
+
+def is_fs_primitive(callable_, arg0=None):
+    name = getattr(callable_, "__name__", None)
+    if name not in FS_NAMES:
+        return False
+    slf = getattr(callable_, "__self__", None)
+    owner = getattr(callable_, "__objclass__", None)
+    if slf is None and owner is not None:
+        # unbound method descriptor (how C methods arrive at CALL events): the object is arg0
+        slf = arg0 if isinstance(arg0, owner) else None
+        if slf is None:
+            return False
+    if slf is not None and not isinstance(slf, type(os)):
+        if isinstance(slf, (str, bytes, bytearray, list, dict, set, frozenset, tuple)):
+            return False  # str.replace, list.remove, ...
+        if name in FILE_METHODS:
+            # methods of file objects: only real files below HOME (or anonymous descriptors, e.g.
+            # of os.fdopen'ed temporary files) - not StringIO, stdout, log streams
+            fname = getattr(slf, "name", None)
+            if isinstance(fname, int):
+                return True
+            if isinstance(fname, (str, bytes, os.PathLike)):
+                try:
+                    return os.path.abspath(os.fsdecode(fname)).startswith(os.environ["HOME"])
+                except Exception:
+                    return False
+            return False
+    mod = getattr(callable_, "__module__", None)
+    if mod is None and slf is not None:
+        mod = getattr(type(slf), "__module__", None)
+    return mod in FS_MODULES
+
+
 def run_scenario(name):
     if name in ("import", "upgrade"):
         import evo.tools.settings  # noqa
@@ -87,7 +131,7 @@ def main(argv):
             return
         if mode == "crash" and n == K:
             if variant.startswith("torn") and kind == "CALL" and getattr(callable_, "__name__", "") == "write" \
-                    and isinstance(arg0, str) and hasattr(getattr(callable_, "__self__", None), "flush"):
+                    and isinstance(arg0, (str, bytes)) and hasattr(getattr(callable_, "__self__", None), "flush"):
                 data = arg0
                 cut = {"torn1": 1, "tornhalf": len(data) // 2, "tornlast": len(data) - 1}[variant]
                 try:
@@ -99,15 +143,25 @@ def main(argv):
         if mode == "race" and kind == "CALL" and rnd.random() < 0.3:
             time.sleep(rnd.random() * 0.003)
 
+    started = {"on": False}
+
     def on_call(code, offset, callable_, arg0):
-        if not in_scope(code):
-            return mon.DISABLE
-        step("CALL", code, callable_, arg0)
+        if in_scope(code):
+            started["on"] = True
+            step("CALL", code, callable_, arg0)
+            return None
+        if not is_fs_primitive(callable_, arg0):
+            return None
+        if started["on"] and not code.co_filename.endswith(("importlib/_bootstrap_external.py", "zipimport.py")) \
+                and "vmon" not in code.co_filename:
+            step("CALL", code, callable_, arg0)
 
     def on_c_return(code, offset, callable_, arg0):
-        if not in_scope(code):
-            return None
-        step("C_RETURN", code, callable_, arg0)
+        if in_scope(code):
+            step("C_RETURN", code, callable_, arg0)
+        elif started["on"] and is_fs_primitive(callable_, arg0) and "vmon" not in code.co_filename and \
+                not code.co_filename.endswith(("importlib/_bootstrap_external.py", "zipimport.py")):
+            step("C_RETURN", code, callable_, arg0)
 
     line_hits = {}
     if mode == "count":
